@@ -73,13 +73,15 @@ def to_scenario(h, key_bytes=None):
 def run_hists(chk, exe, items, label, key=None, limit_fail=5):
     """items: (history, key_bytes or None, accept or None)"""
     scen = [to_scenario(h, kb) for (h, kb, acc) in items]
-    outs = vkit.run_driver(exe, scen, timeout=900)
+    outs = vkit.run_driver(exe, scen, timeout=3000)
     nfail = 0
     for (h, kb, acc), sc, o in zip(items, scen, outs):
         chk.cov["traces_validated_against_impl"] += 1
         chk.count_case({"h": [{k: v for k, v in s.items() if k != "o"} for s in h], "key": kb.hex() if kb is not None else None},
                        nontrivial=True)
         msg = None
+        if isinstance(o, dict) and o.get("hang"):
+            raise vkit.InfraError("driver shard timed out (machine overloaded?)")
         if not isinstance(o, dict) or "obs" not in o:
             msg = "driver: %s" % (o.get("crash") if isinstance(o, dict) else o)
         else:
@@ -119,8 +121,12 @@ def run(tier, seed):
 
     # one TLC run: decides the encoder invariants in every state and emits every maximal history
     hists = ws.generate(chk, "C32_enc", c, invariants=("EncHdrOK", "EncDecodeOK", "CloseOK", "Emit"), timeout=1500)
-    # two 16 MiB sends in one history add nothing over one
-    hists = [h for h in hists if sum(s["p"][0] for s in h if "p" in s) < 20000000]
+    # the very large sends (1 MiB+1, 16 MiB+1) are kept only next to a tiny send or a close: pairing them with
+    # every other length adds volume, not behaviour
+    def keep(h):
+        sz = [s["p"][0] for s in h if "p" in s]
+        return not any(x > 1000000 for x in sz) or all(x > 1000000 or x <= 1 for x in sz)
+    hists = [h for h in hists if keep(h)]
     ops = {}
     for h in hists:
         for s in h:
